@@ -163,22 +163,23 @@ class Contract:
                 for _label, fml in self._gen(self.on_raise(old, self_obj, a, exc) if self_obj is not None else self.on_raise(a, exc)):
                     st.assume(fml)
                 raise PyRaise(exc)
-        memo_key = None
+        det_terms = None
         if getattr(self, "deterministic", False):
+            # a deterministic (pure) function: its result is an uninterpreted function of the arguments,
+            # the receiver's fields and the state versions of the opaque children it may consult
             from .protocol import encode_arg
 
-            def enc(v):
-                try:
-                    return ",".join(t.sexpr() for t in encode_arg(st, v))
-                except Unsupported:
-                    return f"id{id(v)}"
-
-            memo_key = (self.target, tuple(enc(vals[k]) for k in sorted(vals)),
-                        tuple(enc(v) for _k, v in sorted(self_obj.fields.items())) if self_obj is not None else (),
-                        tuple(sorted(st.ghost.get("ver", {}).items())))
-            hit = st.ghost.setdefault("memo", {}).get(memo_key)
-            if hit is not None:
-                return hit[0]
+            det_terms = []
+            for k in sorted(vals):
+                det_terms.extend(encode_arg(st, vals[k]))
+            if self_obj is not None:
+                for _k, v in sorted(self_obj.fields.items()):
+                    try:
+                        det_terms.extend(encode_arg(st, v))
+                    except Unsupported:
+                        continue
+                    if isinstance(v, V.SOpaque):
+                        det_terms.append(z3.IntVal(st.ghost.get("ver", {}).get(str(v.e), 0)))
         old = self_obj.snapshot() if self_obj is not None else None
         saved_trace = None
         if self_obj is not None:
@@ -189,6 +190,10 @@ class Contract:
             old.trace.clear()
         if self.pure_spec is not None:
             result = self.pure_spec(a) if self_obj is None else self.pure_spec(old, a)
+        elif det_terms is not None and self.result is not None:
+            from .protocol import uf_shape_value
+
+            result = uf_shape_value(st, f"fn:{self.target.split(':')[1]}", det_terms, self.result)
         else:
             result = self.result.fresh(st, f"r_{f.ref.node.name}") if self.result is not None else None
         if self_obj is not None:
@@ -206,8 +211,6 @@ class Contract:
             self_obj.trace.clear()
             self_obj.trace.extend(saved_trace + delta)
         ip.task.used_contracts.add(self.target)
-        if memo_key is not None:
-            st.ghost["memo"][memo_key] = (result,)
         return result
 
     def spec_value(self, self_obj, **vals):
